@@ -436,7 +436,7 @@ def sitesOf : Shape → List (Kind × Cat)
   | .keyed k fs => (k, .none) :: sitesOfFields fs
   | .wrap k s => (k, s.cat) :: sitesOf s
   | .wrapN k p opts => fallbackSite k p opts :: sitesOfOpts k opts
-  | .owned s => sitesOf s
+  | .owned s => (.owner, .none) :: sitesOf s
 termination_by structural s => s
 def sitesOfOpts (k : Kind) : List Shape → List (Kind × Cat)
   | [] => []
